@@ -30,6 +30,7 @@ func (u *Unit) deepCopyCall(fn *ssa.Function, args []*SV, st *State, pc *Term) [
 	et := fn.Signature.Recv().Type().Underlying().(*types.Pointer).Elem()
 	u.usedTrusted["assumed contract (generated deepcopy): "+shortName(fn.String())] = true
 	nonNil := c.Neq(src, c.Nil())
+	u.dcBound = st.alloc
 	dst := u.deepCopyObj(st, c.And(pc, nonNil), src, et, 3)
 	return []*SV{leaf(c.Ite(nonNil, dst, c.Nil()))}
 }
@@ -45,6 +46,13 @@ func (u *Unit) deepCopyInto(st *State, guard *Term, src, dst *Term, t types.Type
 	if s := u.leafSort(t); s != nil {
 		// raw read: the copied value inherits whatever is known about the source value
 		v := u.readThrough(u.heapArr(st, s), src, guard)
+		// whatever the source refers to existed before the copy started
+		switch s {
+		case SRef:
+			u.assume(guard, c.Or(c.Eq(v, c.Nil()), c.Lt(c.Root(v), u.dcBound)))
+		case SSlice:
+			u.assume(guard, c.Or(c.Eq(c.SArr(v), c.Nil()), c.Lt(c.Root(c.SArr(v)), u.dcBound)))
+		}
 		switch tt := t.Underlying().(type) {
 		case *types.Pointer:
 			isNil := c.Eq(v, c.Nil())
